@@ -463,8 +463,8 @@ func runC14(c *core.Ctx) {
 			maxB3 = 1
 		}
 		veryHeavy := strings.HasPrefix(s.Name, "S7") // two polygons + their loops: six indexes
-		if veryHeavy && c.Quick() {
-			maxB2 = 1
+		if veryHeavy {
+			maxB2, maxB3 = core.Pick(c, 1, 2), core.Pick(c, 1, 1)
 		}
 		if os.Getenv("C14_UNBOUNDED_ONLY") == "" {
 			jobs = append(jobs, c14Job{s, 2, maxB2, core.Pick(c, 1, 4)})
@@ -526,7 +526,7 @@ func c14RunJobs(c *core.Ctx, bin string, jobs []c14Job) []map[string]any {
 				defer wg.Done()
 				sem <- struct{}{}
 				defer func() { <-sem }()
-				maxExec := "0"
+				maxExec := strconv.Itoa(core.Pick(c, 0, 1500000)) // per shard; a truncated job is reported, not hidden
 				if j.bound < 0 {
 					maxExec = strconv.Itoa(core.Pick(c, 60000, 400000))
 				}
@@ -579,7 +579,7 @@ func c14RunJobs(c *core.Ctx, bin string, jobs []c14Job) []map[string]any {
 				reached[i] += v
 			}
 			if o.Truncated {
-				c.CapHit(fmt.Sprintf("%s, %d threads, unbounded exploration truncated after %d executions", r.j.sc.Name, r.j.threads, o.Executions))
+				c.CapHit(fmt.Sprintf("%s, %d threads, bound %d (-1 = unbounded): exploration truncated after %d executions in one shard", r.j.sc.Name, r.j.threads, r.j.bound, o.Executions))
 			}
 			for _, f := range o.Failures {
 				sub := fmt.Sprintf("%s/threads=%d", r.j.sc.Name, r.j.threads)
